@@ -1028,6 +1028,23 @@ func ruleTimeoutApplied(c *Ctx, rule string) {
 				}
 			}
 			c.check(g, rule, w.Short(a.Create)+": deadline applied only for a valid header", w.At(call), "dominated by ok == true", "WithTimeout is not dominated by the parser's ok result: a malformed header (duration 0) would expire the handler at once")
+			// ... and for every valid header: between the parser call and WithTimeout no condition other than ok is tested
+			// (a test of the parsed duration, e.g. ok && timeout > 0, leaves a well-formed "0S" without any deadline)
+			before := map[ssa.Value]bool{}
+			for _, f := range boolFactsAt(pc) {
+				before[f.V] = true
+			}
+			extra := ""
+			for _, f := range boolFactsAt(call) {
+				if before[f.V] {
+					continue
+				}
+				if e2, ok := f.V.(*ssa.Extract); ok && e2.Tuple == ssa.Value(pc) && e2.Index == 1 {
+					continue
+				}
+				extra = desc(f.V)
+			}
+			c.check(extra == "", rule, w.Short(a.Create)+": deadline applied for every valid header", w.At(call), "the only condition between the parser and WithTimeout is its ok result", "WithTimeout is also conditional on "+extra+": some well-formed grpc-timeout values give the handler no deadline")
 		}
 	})
 	c.floor(rule, n, 1, "WithTimeout sites in the creation function")
